@@ -337,6 +337,12 @@ def gen_fault_cases(g, tier):
         base["faults"] = {"eval": {"name": nm, "k": 1}}
         base["variant"] = "start"
         cases.append(base)
+    # ... also with the derivative check switched on (it runs after the start has been validated)
+    for nm in ("obj", "obj_grad"):
+        base = C.gen_case(g, "convex_qp", {"iteration_limit": 20, "deriv_check": "CheckAll"}, scaling=False)
+        base["faults"] = {"eval": {"name": nm, "k": 1}}
+        base["variant"] = "start"
+        cases.append(base)
     return cases
 
 
@@ -656,6 +662,42 @@ def run_C10(rep, tier, seed):
         if a != b:
             msg = "params_reuse: a Params object used by an earlier solve and then edited gives %r, a fresh one with the same fields %r" % (a, b)
         results.append((dict(case, variant="edited_params"), keyof(msg), msg, "edited_params/%s" % a[0]))
+    # (e) a problem object that an earlier Solver scaled automatically at another point carries nothing over
+    for i in range(N // 2):
+        case = C.gen_case(g, "convex_qp", {"iteration_limit": 30}, scaling=False)
+        spec = Spec.from_json(case["spec"])
+        if spec.m == 0:
+            continue
+        for i_ in range(spec.m):                   # curved rows: Jacobian and Hessian depend on the point
+            spec.A[i_][0][0] = 1.0
+        case["spec"] = spec.to_json()
+        kind = ["KKT", "GradJac", "KKT", "Nominal"][i % 4]
+        x0 = np.array(case["x0"], dtype=float)
+        y0 = np.array(case["y0"], dtype=float)
+        other = x0 * 1024.0 + 512.0               # far away: other magnitudes, other scaling
+        lvl = logger.level
+        logger.setLevel(logging.ERROR)
+        try:
+            def solve_with(prob, point):
+                params, _ = C.make_params(case["cfg"], {"kind": kind}, spec, list(point), list(y0 * 1024.0 + 512.0 if point is other else y0))
+                try:
+                    s_ = Solver(prob, params)
+                    res = s_.solve(x0, y0)
+                    sc_ = s_.transform.scaling
+                    return (res.status.name, [float(v) for v in res.x], int(res.iterations),
+                            None if sc_ is None else [int(v) for v in sc_.var_weights] + [int(v) for v in sc_.cons_weights])
+                except Exception as e:
+                    return ("raised", type(e).__name__, str(e)[:80])
+            shared = C.QuadProblem(spec, fmt=case["prob"]["fmt"])
+            solve_with(shared, other)
+            a = solve_with(shared, x0)
+            b = solve_with(C.QuadProblem(spec, fmt=case["prob"]["fmt"]), x0)
+        finally:
+            logger.setLevel(lvl)
+        msg = None
+        if a != b:
+            msg = "problem_reuse: a problem object used before by a solver with another %s scaling point gives %r, a fresh one %r" % (kind, a, b)
+        results.append((dict(case, variant="scaled_elsewhere_before"), keyof(msg), msg, "problem_reuse/%s" % a[0]))
     report(rep, "C10", "histories", results)
 
 
